@@ -54,6 +54,30 @@ def _join(
         yield from _yield(element, flat=flat)
 
 
+# Precedence of operators, loosest first (the table of `ast.unparse`); everything else is an atom.
+_OR, _AND, _NOT, _CMP, _BOR, _FACTOR, _POWER, _ATOM = 5, 6, 7, 8, 9, 15, 16, 18
+_BINOP_PRECEDENCE = {"|": 9, "^": 10, "&": 11, "<<": 12, ">>": 12, "+": 13, "-": 13, "*": 14, "/": 14, "//": 14, "%": 14, "@": 14, "**": _POWER}
+
+
+def _precedence(element: str | Expr) -> int:
+    if isinstance(element, ExprBinOp):
+        return _BINOP_PRECEDENCE[element.operator]
+    if isinstance(element, ExprUnaryOp):
+        return _NOT if element.operator == "not " else _FACTOR
+    if isinstance(element, ExprBoolOp):
+        return _OR if element.operator == "or" else _AND
+    if isinstance(element, ExprCompare):
+        return _CMP
+    if isinstance(element, (ExprIfExp, ExprLambda)):
+        return 4
+    return _ATOM
+
+
+def _operand(element: str | Expr, level: int) -> str | Expr | tuple[str | Expr, ...]:
+    """Put parentheses around an operand that binds looser than its position allows."""
+    return ("(", element, ")") if _precedence(element) < level else element
+
+
 def _field_as_dict(
     element: str | bool | Expr | list[str | Expr] | None,
     **kwargs: Any,
@@ -184,7 +208,7 @@ class ExprAttribute(Expr):
     """The different parts of the dotted chain."""
 
     def iterate(self, *, flat: bool = True) -> Iterator[str | Expr]:
-        yield from _join(self.values, ".", flat=flat)
+        yield from _join([_operand(self.values[0], _ATOM), *self.values[1:]], ".", flat=flat)
 
     def append(self, value: ExprName) -> None:
         """Append a name to this attribute.
@@ -232,9 +256,12 @@ class ExprBinOp(Expr):
     """Right part."""
 
     def iterate(self, *, flat: bool = True) -> Iterator[str | Expr]:
-        yield from _yield(self.left, flat=flat)
+        level = _BINOP_PRECEDENCE[self.operator]
+        # Left-associative, except `**` (`-a ** -b ** c` is `-(a ** (-(b ** c)))`).
+        left, right = (_ATOM - 1, _FACTOR) if self.operator == "**" else (level, level + 1)
+        yield from _yield(_operand(self.left, left), flat=flat)
         yield f" {self.operator} "
-        yield from _yield(self.right, flat=flat)
+        yield from _yield(_operand(self.right, right), flat=flat)
 
 
 # YORE: EOL 3.9: Replace `**_dataclass_opts` with `slots=True` within line.
@@ -248,7 +275,8 @@ class ExprBoolOp(Expr):
     """Operands."""
 
     def iterate(self, *, flat: bool = True) -> Iterator[str | Expr]:
-        yield from _join(self.values, f" {self.operator} ", flat=flat)
+        level = (_OR if self.operator == "or" else _AND) + 1
+        yield from _join([_operand(value, level) for value in self.values], f" {self.operator} ", flat=flat)
 
 
 # YORE: EOL 3.9: Replace `**_dataclass_opts` with `slots=True` within line.
@@ -267,7 +295,7 @@ class ExprCall(Expr):
         return self.function.canonical_path
 
     def iterate(self, *, flat: bool = True) -> Iterator[str | Expr]:
-        yield from _yield(self.function, flat=flat)
+        yield from _yield(_operand(self.function, _ATOM), flat=flat)
         yield "("
         yield from _join(self.arguments, ", ", flat=flat)
         yield ")"
@@ -286,9 +314,10 @@ class ExprCompare(Expr):
     """Things compared."""
 
     def iterate(self, *, flat: bool = True) -> Iterator[str | Expr]:
-        yield from _yield(self.left, flat=flat)
+        yield from _yield(_operand(self.left, _BOR), flat=flat)
         yield " "
-        yield from _join(zip_longest(self.operators, [], self.comparators, fillvalue=" "), " ", flat=flat)
+        comparators = [_operand(comparator, _BOR) for comparator in self.comparators]
+        yield from _join(zip_longest(self.operators, [], comparators, fillvalue=" "), " ", flat=flat)
 
 
 # YORE: EOL 3.9: Replace `**_dataclass_opts` with `slots=True` within line.
@@ -311,10 +340,10 @@ class ExprComprehension(Expr):
         yield "for "
         yield from _yield(self.target, flat=flat)
         yield " in "
-        yield from _yield(self.iterable, flat=flat)
+        yield from _yield(_operand(self.iterable, _OR), flat=flat)
         if self.conditions:
             yield " if "
-            yield from _join(self.conditions, " if ", flat=flat)
+            yield from _join([_operand(condition, _OR) for condition in self.conditions], " if ", flat=flat)
 
 
 # TODO: `ExprConstant` is never instantiated,
@@ -429,9 +458,9 @@ class ExprIfExp(Expr):
     """Other expression."""
 
     def iterate(self, *, flat: bool = True) -> Iterator[str | Expr]:
-        yield from _yield(self.body, flat=flat)
+        yield from _yield(_operand(self.body, _OR), flat=flat)
         yield " if "
-        yield from _yield(self.test, flat=flat)
+        yield from _yield(_operand(self.test, _OR), flat=flat)
         yield " else "
         yield from _yield(self.orelse, flat=flat)
 
@@ -501,7 +530,7 @@ class ExprVarPositional(Expr):
 
     def iterate(self, *, flat: bool = True) -> Iterator[str | Expr]:
         yield "*"
-        yield from _yield(self.value, flat=flat)
+        yield from _yield(_operand(self.value, _BOR), flat=flat)
 
 
 # YORE: EOL 3.9: Replace `**_dataclass_opts` with `slots=True` within line.
@@ -777,7 +806,7 @@ class ExprSubscript(Expr):
     """Slice part."""
 
     def iterate(self, *, flat: bool = True) -> Iterator[str | Expr]:
-        yield from _yield(self.left, flat=flat)
+        yield from _yield(_operand(self.left, _ATOM), flat=flat)
         yield "["
         yield from _yield(self.slice, flat=flat)
         yield "]"
@@ -829,7 +858,7 @@ class ExprUnaryOp(Expr):
 
     def iterate(self, *, flat: bool = True) -> Iterator[str | Expr]:
         yield self.operator
-        yield from _yield(self.value, flat=flat)
+        yield from _yield(_operand(self.value, _NOT if self.operator == "not " else _FACTOR), flat=flat)
 
 
 # YORE: EOL 3.9: Replace `**_dataclass_opts` with `slots=True` within line.
